@@ -22,6 +22,9 @@
 
 #include <atomic>
 #include <cstddef>
+#if defined(PIKA_VERIF)
+# include <cstdint>
+#endif
 #include <memory>
 #include <thread>
 
@@ -45,6 +48,10 @@ namespace pika::detail {
             std::hash<pika::threads::detail::thread_id_type>()(
                 pika::threads::detail::get_self_id()) :
             std::hash<std::thread::id>()(std::this_thread::get_id()) % ((expected + 1) >> 1);
+#if defined(PIKA_VERIF)
+        // the start node is an arbitrary hash value: a harness may overwrite it (obj = &current)
+        PIKA_VERIF_POINT(900, &current, static_cast<std::uint64_t>(expected), old_phase);
+#endif
         for (int round = 0;; ++round)
         {
             if (current_expected <= 1) { return true; }
@@ -54,6 +61,9 @@ namespace pika::detail {
             while (true)
             {
                 if (current == end_node) current = 0;
+#if defined(PIKA_VERIF)
+                PIKA_VERIF_POINT(901, this, static_cast<std::uint64_t>(round), current);
+#endif
                 detail::barrier_phase_t expect = old_phase;
                 if (current == last_node && (current_expected & 1))
                 {
@@ -68,6 +78,9 @@ namespace pika::detail {
                 }
                 else if (expect == half_step)
                 {
+#if defined(PIKA_VERIF)
+                    PIKA_VERIF_POINT(902, this, static_cast<std::uint64_t>(round), current);
+#endif
                     if (state[current].tickets[round].phase.compare_exchange_strong(
                             expect, full_step, std::memory_order_acq_rel))
                         break;    // I'm 2 in 2, go to next round
